@@ -4,6 +4,7 @@
   frame_div_decode`), over the generated formats (`Gen.Fmt`) and ids (`Gen.Ids`).
 -/
 import NxsModel.Serial
+import NxsModel.Dispatch
 import NxsModel.Gen.Fmt
 namespace Nxs
 namespace Requests
@@ -143,6 +144,46 @@ def frameDivDecode (data : Bytes) (chmax : Nat) (cur : List Int) : Except Err (L
         | [.int d] => .ok (List.replicate chmax d)
         | _ => .error .structError
     else .error .valueError
+
+/-! ### the device side as a whole: dispatcher → callback → decoder → per-channel writes
+
+  `ParseRecv.recv_handle(bytes)` with the `enable` / `div` callbacks of a device that keeps one
+  long-lived `Device` object (what `intf/dummy.py::DummyDev._enable_cb/_div_cb` do): decode against
+  the device's CURRENT vectors (`dev.channels_en` / `dev.channels_div`), then store the decoded vector
+  by per-channel attribute writes.  The other callbacks (cmninfo, chinfo, start) do not touch the
+  channel state.  An exception of the dispatcher or the decoder leaves the state as it was. -/
+
+/-- the per-channel state of a device -/
+structure DevSt where
+  en : List Bool
+  div : List Int
+  deriving DecidableEq, Repr
+
+/-- `for chid, x in enumerate(decoded): channel_get(chid).data.<field> = x` on `cur` -/
+def storeVec (cur decoded : List α) : List α :=
+  decoded.take cur.length ++ cur.drop decoded.length
+
+/-- callback number `cb` (`Dispatch.cbName`) run on payload `p` by a device with `n` channels -/
+def devApply (n : Nat) (s : DevSt) (cb : Nat) (p : Bytes) : Except Err DevSt :=
+  if cb = 2 then (frameEnableDecode p n s.en).map fun r => { s with en := storeVec s.en r }
+  else if cb = 3 then (frameDivDecode p n s.div).map fun r => { s with div := storeVec s.div r }
+  else .ok s
+
+/-- one write received: new state and what happened (`.ok none` ignored, `.ok (some cb)` callback
+    `cb` ran, `.error e` the dispatcher or the decoder raised) -/
+def devRecv (n : Nat) (s : DevSt) (w : Bytes) : DevSt × Except Err (Option Nat) :=
+  match Dispatch.recvHandle w with
+  | .ignored => (s, .ok none)
+  | .raised e => (s, .error e)
+  | .fired cb p =>
+    match devApply n s cb p with
+    | .ok s' => (s', .ok (some cb))
+    | .error e => (s, .error e)
+
+/-- a history of writes on ONE device object: the state and outcome after every write -/
+def devRun (n : Nat) (s : DevSt) : List Bytes → List (DevSt × Except Err (Option Nat))
+  | [] => []
+  | w :: ws => let r := devRecv n s w; r :: devRun n r.1 ws
 
 end Requests
 end Nxs
